@@ -322,8 +322,8 @@ type c13PKI struct {
 	// leaf and the intermediate. The configured ca_cert (CA[i]) is unrelated to it.
 	OwnRoot *c13CA
 	Own     [2]*c13CA
-	mu   sync.Mutex
-	leaf map[string]*c13Leaf
+	mu      sync.Mutex
+	leaf    map[string]*c13Leaf
 }
 
 func c13NewPKI() *c13PKI {
